@@ -293,6 +293,7 @@ class FunctionVC:
         out['pure_callee_results'] = oracle
         # callees replaced by an ABSTRACT contract whose chosen values cannot be imposed natively (lookup strengths):
         # a native replay that does not exhibit the failure then proves nothing either way
-        out['abstract_callees'] = sorted({k[0] for k in getattr(self.I, 'strength_memo', {})})
+        out['abstract_callees'] = sorted({k[0] for k in getattr(self.I, 'strength_memo', {})}
+                                         | ({'hand_type.from_game (abstract hands)'} if self.I.memo_uf else set()))
         out['havoc_callees'] = sorted(q for q, c in (self.I.cuts or {}).items() if getattr(c, '_havoc', False))
         return out
